@@ -18,13 +18,37 @@ typedef struct {
   uint64_t failed_steal_count;
 } sched_mirror_t;
 
-#define NF 32
-static fiber_t fibers[NF + 1];
-static int inwq[NF + 1];      /* fiber is parked in a wait queue outside the scheduler (blocked and switched away from, wake-up not yet consumed) */
+#define NF 32            /* ids 1..NF: the fibers of the model (coq/Sched.v) */
+#define NFBIG 1100       /* ids NF+1..NFBIG: only in the monitor-only BIG cases (ops 11, 12) */
+static fiber_t fibers[NFBIG + 1];
+static long next_big;    /* last id handed out by op 11 */
+static int inwq[NFBIG + 1];      /* fiber is parked in a wait queue outside the scheduler (blocked and switched away from, wake-up not yet consumed) */
 static hcase_t* cur;
 static int nthreads;
 
 static long fid(fiber_t* f) { return f ? (long)(f - fibers) : 0; }
+
+/* fiber_manager_yield / switch_to / do_maintenance as seen by the scheduler; returns the id handed out (0: none) */
+static long do_yield(fiber_scheduler_t* s, fiber_t** pcur, int block) {
+  fiber_t* current = *pcur;
+  if (block) current->state = FIBER_STATE_WAITING;
+  const fiber_state_t st = current->state;
+  fiber_t* nf = fiber_scheduler_next(s);
+  if (nf) {
+    fiber_t* to_schedule = NULL;
+    if (current->state == FIBER_STATE_RUNNING) { current->state = FIBER_STATE_READY; to_schedule = current; }
+    nf->state = FIBER_STATE_RUNNING;
+    /* context switch; the successor's maintenance requeues the old fiber */
+    if (to_schedule) fiber_scheduler_schedule(s, to_schedule);
+    else inwq[fid(current)] = 1;      /* the old fiber is now parked in its wait queue */
+    current = nf;
+  } else if (st == FIBER_STATE_WAITING) {
+    inwq[fid(current)] = 1;           /* parked */
+    current = NULL;                   /* switch to the maintenance (scheduler loop) fiber */
+  }
+  *pcur = current;
+  return fid(nf);
+}
 
 static void prog(int t) {
   fiber_scheduler_t* s = fiber_scheduler_for_thread(t);
@@ -43,20 +67,20 @@ static void prog(int t) {
       r = a;
     } else if (opc == 2 || opc == 4) {    /* 2: fiber_yield   4: block (state WAITING, then yield) */
       if (!current) { rt_event(k + 1, K_RET, -1); continue; }
-      if (opc == 4) current->state = FIBER_STATE_WAITING;
-      const fiber_state_t st = current->state;
-      fiber_t* nf = fiber_scheduler_next(s);
-      if (nf) {
-        fiber_t* to_schedule = NULL;
-        if (current->state == FIBER_STATE_RUNNING) { current->state = FIBER_STATE_READY; to_schedule = current; }
-        nf->state = FIBER_STATE_RUNNING;
-        /* context switch; the successor's maintenance requeues the old fiber */
-        if (to_schedule) fiber_scheduler_schedule(s, to_schedule);
-        else inwq[fid(current)] = 1;      /* the old fiber is now parked in its wait queue */
-        current = nf;
-      } else if (st == FIBER_STATE_WAITING) {
-        inwq[fid(current)] = 1;           /* parked */
-        current = NULL;                   /* switch to the maintenance (scheduler loop) fiber */
+      do_yield(s, &current, opc == 4);
+      r = fid(current);
+    } else if (opc == 11) {               /* BIG cases only: spawn a further fibers (ids above NF) */
+      for (long j = 0; j < a && next_big < NFBIG; j++) {
+        fiber_t* f = &fibers[++next_big];
+        f->state = FIBER_STATE_READY;
+        fiber_scheduler_schedule(s, f);
+      }
+      r = next_big;
+    } else if (opc == 12) {               /* BIG cases only: a yields in a row, one event per hand-out */
+      if (!current) { rt_event(k + 1, K_RET, -1); continue; }
+      for (long j = 0; j < a; j++) {
+        long h = do_yield(s, &current, 0);
+        if (h) rt_event(5001, K_EV, h);
       }
       r = fid(current);
     } else if (opc == 3) {                /* one iteration of the thread's scheduler loop (only when idle) */
@@ -93,6 +117,7 @@ static void h_run_case(hcase_t* c) {
   nthreads = c->nthreads;
   memset(fibers, 0, sizeof fibers);
   memset(inwq, 0, sizeof inwq);
+  next_big = NF;
   fiber_scheduler_init(nthreads);
   for (int t = 0; t < nthreads; t++) {
     sched_mirror_t* m = (sched_mirror_t*)fiber_scheduler_for_thread(t);
